@@ -171,9 +171,44 @@ Definition presult_is (r : presult (vexpr * list token)) (t : vexpr) : bool :=
 Definition model_value (t : vexpr) : amount + eval_err :=
   match eval_v t with inl v => ev_to_amount v | inr e => inr e end.
 
+(* Does the exact value have a finite decimal expansion?  Then Decimal's 28-digit division is
+   exact (the generator keeps inexact quotients at the root only) and values are compared
+   exactly; the 1e-18 tolerance applies only to results that cannot be written exactly. *)
+Fixpoint strip_factor (fuel : nat) (d p : N) : N :=
+  match fuel with
+  | O => d
+  | S f => if (d mod p =? 0)%N then strip_factor f (d / p)%N p else d
+  end.
+Definition terminating (q : Qc) : bool :=
+  let d := Npos (Qden (this q)) in
+  let f := S (N.to_nat (N.size d)) in
+  (* and short enough for Decimal's 28 places / 96-bit mantissa: at most ~18 decimal places *)
+  (strip_factor f (strip_factor f d 2%N) 5%N =? 1)%N && (d <? 1000000000000000000)%N.
+Definition ev_terminating (r : evaluated + eval_err) : bool :=
+  match r with
+  | inl (ENum q) => terminating q
+  | inl (ECom a) => forallb (fun p => terminating (snd p)) a
+  | inr _ => true
+  end.
+(* every quotient computed anywhere in the tree has a finite decimal expansion *)
+Fixpoint v_divs_terminating (v : vexpr) : bool :=
+  match v with
+  | VParen e => e_divs_terminating e
+  | VAmt _ _ => true
+  end
+with e_divs_terminating (e : expr) : bool :=
+  match e with
+  | EUnaryNeg x => e_divs_terminating x
+  | EBin op l r =>
+      e_divs_terminating l && e_divs_terminating r &&
+      match op with ODiv => ev_terminating (eval_e (EBin ODiv l r)) | _ => true end
+  | EVal v => v_divs_terminating v
+  end.
+Definition result_terminating (t : vexpr) : bool := v_divs_terminating t.
+
 Definition classify (c : case) : N :=
   let t := c_tree c in
-  let ap := v_has_div t in
+  let ap := v_has_div t && negb (result_terminating t) in
   let shape := match c_parsed c with Some p => vexpr_eqb p t | None => false end in
   let spec :=
     shape && spec_value ap t (c_eval c) && spec_value ap t (c_cli c)
